@@ -92,6 +92,153 @@ func init() {
 			visit(st)
 		}
 
+		// The same branch once more, but per KIND of target: the watched calls that a filegroup / any other target
+		// executes on its way through buildTarget, in source order.  `if target.IsFilegroup {...}` /
+		// `if !target.IsFilegroup [&& ...] {...}` (and their else branches) select the kind, a top-level
+		// `if target.IsFilegroup { ...; return }` ends the filegroup's path, `if runRemotely ...` bodies are not
+		// on the local path, a deferred call (also inside a deferred func literal) is "defer <name>".
+		// Model/C31_Protocol.v runs these lists as the per-process program of its lock-protocol transition
+		// system; Proof/C31_Protocol.v proves mutual exclusion of the critical section from `guarded` of them.
+		const (
+			gBoth = iota
+			gFg
+			gNonFg
+			gNone
+		)
+		pathWatch := map[string]bool{"buildFilegroup": true}
+		for k := range watch {
+			pathWatch[k] = true
+		}
+		var fgPath, nfPath []string
+		fgDone, nfDone := false, false
+		emit := func(name string, g int) {
+			if (g == gBoth || g == gFg) && !fgDone {
+				fgPath = append(fgPath, name)
+			}
+			if (g == gBoth || g == gNonFg) && !nfDone {
+				nfPath = append(nfPath, name)
+			}
+		}
+		combine := func(a, b int) int {
+			switch {
+			case a == gNone || b == gNone:
+				return gNone
+			case a == gBoth:
+				return b
+			case b == gBoth || a == b:
+				return a
+			}
+			return gNone
+		}
+		condGuard := func(e ast.Expr) (g int, exact, remote bool) {
+			exact = true
+			for {
+				if pe, ok := e.(*ast.ParenExpr); ok {
+					e = pe.X
+				} else if be, ok := e.(*ast.BinaryExpr); ok && be.Op == token.LAND {
+					e, exact = be.X, false
+				} else {
+					break
+				}
+			}
+			switch render(e) {
+			case "target.IsFilegroup":
+				return gFg, exact, false
+			case "!target.IsFilegroup":
+				return gNonFg, exact, false
+			case "runRemotely":
+				return gBoth, exact, true
+			}
+			return gBoth, false, false
+		}
+		scan := func(n ast.Node, g int) {
+			ast.Inspect(n, func(n ast.Node) bool {
+				switch x := n.(type) {
+				case *ast.FuncLit:
+					return false
+				case *ast.CallExpr:
+					if nm := callName(x); pathWatch[nm] {
+						emit(nm, g)
+					}
+				}
+				return true
+			})
+		}
+		endsInReturn := func(b *ast.BlockStmt) bool {
+			if len(b.List) == 0 {
+				return false
+			}
+			_, ok := b.List[len(b.List)-1].(*ast.ReturnStmt)
+			return ok
+		}
+		var walkStmt func(st ast.Stmt, g, depth int)
+		walkStmt = func(st ast.Stmt, g, depth int) {
+			switch x := st.(type) {
+			case *ast.BlockStmt:
+				for _, y := range x.List {
+					walkStmt(y, g, depth+1)
+				}
+			case *ast.IfStmt:
+				if x.Init != nil {
+					walkStmt(x.Init, g, depth+1)
+				}
+				cg, exact, remote := condGuard(x.Cond)
+				if !remote {
+					bg := combine(g, cg)
+					scan(x.Cond, bg)
+					for _, y := range x.Body.List {
+						walkStmt(y, bg, depth+1)
+					}
+				}
+				if x.Else != nil {
+					eg := g
+					if exact && cg == gFg {
+						eg = combine(g, gNonFg)
+					} else if exact && cg == gNonFg {
+						eg = combine(g, gFg)
+					}
+					if eb, ok := x.Else.(*ast.BlockStmt); ok {
+						for _, y := range eb.List {
+							walkStmt(y, eg, depth+1)
+						}
+					} else {
+						walkStmt(x.Else, eg, depth)
+					}
+				}
+				if depth == 0 && exact && !remote && endsInReturn(x.Body) {
+					if cg == gFg {
+						fgDone = true
+					} else if cg == gNonFg {
+						nfDone = true
+					}
+				}
+			case *ast.DeferStmt:
+				if fl, ok := x.Call.Fun.(*ast.FuncLit); ok {
+					ast.Inspect(fl.Body, func(n ast.Node) bool {
+						if c, ok := n.(*ast.CallExpr); ok {
+							if nm := callName(c); pathWatch[nm] {
+								emit("defer "+nm, g)
+							}
+						}
+						return true
+					})
+				} else if nm := callName(x.Call); pathWatch[nm] {
+					emit("defer "+nm, g)
+				}
+			default:
+				scan(st, g)
+			}
+		}
+		for _, st := range local.List {
+			walkStmt(st, gBoth, 0)
+		}
+		for _, st := range after {
+			walkStmt(st, gBoth, 0)
+		}
+		if len(fgPath) == 0 || len(nfPath) == 0 {
+			failShape("buildTarget: no watched call on the path of a filegroup / of another target")
+		}
+
 		// src/core/lock.go
 		_, lf := parseFile("src/core/lock.go")
 		mode := ""
@@ -207,6 +354,9 @@ func init() {
 		return genHeader +
 			"(* watched calls of filegroupBuilder.Build, in source order *)\n" +
 			"Definition filegroup_build_calls : list string := " + coqStringList(fgCalls) + ".\n" +
+			"(* the watched calls on the path of a filegroup / of any other target through buildTarget's local branch, in source order *)\n" +
+			"Definition build_path_fg : list string := " + coqStringList(fgPath) + ".\n" +
+			"Definition build_path_nonfg : list string := " + coqStringList(nfPath) + ".\n" +
 			"(* calls of buildTarget's local branch and what follows it, every occurrence, in source order *)\n" +
 			"Definition build_calls : list string := " + coqStringList(calls) + ".\n" +
 			"Definition target_lock_arg : string := " + coqString(lockArg) + ".\n" +
